@@ -534,6 +534,8 @@ def run(facts, chk, tier, only=None):
     from . import cli_e2e
     # the subcommand through ska::main() itself (argument parser replaced by a constructed Args value): hand-over of CLI values, width dispatch
     chk.guard('C01.cli', 'C01.cli:run0', lambda: cli_e2e.check_build(facts, chk, 'C01.cli', tier))
+    from . import cli_more2
+    chk.guard('C01.cli', 'C01.cli:run2', lambda: cli_more2.check_build_proportion(facts, chk, 'C01.cli', tier))
     chk.guard('C01.cli', 'C01.cli:run1', lambda: cli_e2e.check_nk_distance(facts, chk, 'C01.cli', tier, 'nk'))
     from . import nk_e2e
     chk.guard('C01.e2e', 'C01.e2e:run', lambda: nk_e2e.check_nk_e2e(facts, chk, 'C01.e2e', tier))
